@@ -33,6 +33,7 @@ MIN_REACH = {
     "states_judged": {"quick": 1500, "thorough": 30000},
     "grow_events_recorded": {"quick": 1200, "thorough": 25000},
     "failed_grows": {"quick": 40, "thorough": 800},
+    "grows_as_mpi_rank_0": {"quick": 60, "thorough": 1200},
     "reloads_by_same_constructor_call": {"quick": 30, "thorough": 600},
     "failed_grows_iteration_protocol_exception": {"quick": 15, "thorough": 250},
     "check_bad_calls": {"quick": 40, "thorough": 800},
@@ -201,6 +202,13 @@ def run_case(ctx, case):
         expect_exc = False
         err = None
         ids = []
+        # the grower is rank 0 of an MPI launch (mpiexec -n 1 / an srun step set these variables): rank 0 is the rank
+        # that saves, so nothing about progress changes
+        mpi_var = None
+        if op in ("grow", "grow_fn", "grow_subset", "grow_missing") and rng.random() < 0.2:
+            mpi_var = rng.choice(["PMI_RANK", "OMPI_COMM_WORLD_RANK"])
+            os.environ[mpi_var] = "0"
+            ctx.count("grows_as_mpi_rank_0")
         try:
             with quiet():
                 if op == "reload":
@@ -305,6 +313,9 @@ def run_case(ctx, case):
             err = e
         except Exception as e:
             err = e
+        finally:
+            if mpi_var:
+                os.environ.pop(mpi_var, None)
         log_off = probe.read_log(logfile, log_off)[1]
         done_hist.append(op if not ids else "%s%s" % (op, ids))
         if err is not None and expect_exc == "unpicklable":
